@@ -741,6 +741,8 @@ class SX:
         if not self.spec_mode and self.reg.bound_at_module_level(self, name):
             # imported or defined in the module, but nobody gave it a contract or a model
             return Conc(Unknown(name))
+        if not self.spec_mode and name in getattr(self, "enclosing_locals", ()):
+            return Conc(Unknown("closure variable " + name))
         import builtins as _pybuiltins
         if self.unit is not None and hasattr(_pybuiltins, name) and name not in ("old", "forall", "exists", "implies", "iff", "ghost", "matches"):
             return Conc(Unknown("builtins." + name))    # a python builtin the executor has no model for
